@@ -307,8 +307,10 @@ def main(modname: str, argv):
 
     os.makedirs(os.path.join(VERIF, "replays", pid), exist_ok=True)
     out_lines = []
-    for mech, vs in sorted(known_seen.items()):
-        out_lines.append(f"KNOWN-FINDING: property={pid} {mech}: {known[mech]['what']} (seen {len(vs)}x this run)")
+    for mech in sorted(known):
+        vs = known_seen.get(mech, [])
+        seen = f"seen {len(vs)}x this run" if vs else "listed; not re-observed in this run's sample"
+        out_lines.append(f"KNOWN-FINDING: property={pid} {mech}: {known[mech]['what']} ({seen})")
     seen_mech = {}
     for v in unknown:
         seen_mech.setdefault(v["mech"], []).append(v)
